@@ -255,10 +255,21 @@ class TMGRSchedulingComponent(rpu.ClientComponent):
                     early_tasks = self._early.pop(pid, None)
                     if early_tasks:
 
+                        bound = list()
                         for task in early_tasks:
-                            self._assign_pilot(task, pilot)
+                            try:
+                                self._assign_pilot(task, pilot)
+                                bound.append(task)
+                            except Exception as e:
+                                # only this task fails
+                                self._log.exception('task binding failed')
+                                task['exception']        = repr(e)
+                                task['exception_detail'] = \
+                                             '\n'.join(ru.get_exception_trace())
+                                self.advance(task, rps.FAILED,
+                                             publish=True, push=False)
 
-                        self.advance(early_tasks, rps.TMGR_STAGING_INPUT_PENDING,
+                        self.advance(bound, rps.TMGR_STAGING_INPUT_PENDING,
                                      publish=True, push=True)
 
             # let the scheduler know
@@ -453,7 +464,18 @@ class TMGRSchedulingComponent(rpu.ClientComponent):
                     # the task to data staging
                     pilot = self._pilots.get(pid, {}).get('pilot')
                     if pilot:
-                        self._assign_pilot(task, pilot)
+                        try:
+                            self._assign_pilot(task, pilot)
+                        except Exception as e:
+                            # only this task fails, not the bulk
+                            self._log.exception('task binding failed')
+                            task['exception']        = repr(e)
+                            task['exception_detail'] = \
+                                             '\n'.join(ru.get_exception_trace())
+                            self.advance(task, rps.FAILED,
+                                         publish=True, push=False)
+                            continue
+
                         self.advance(task, rps.TMGR_STAGING_INPUT_PENDING,
                                      publish=True, push=True)
 
